@@ -30,6 +30,15 @@ STMTS = [
     "obj.{p0} = 5",
     "with open({p0}) as fh:\n    text = fh.read()",
     "try:\n    check({p1})\nexcept ValueError as e:\n    raise",
+    # annotated statements; locals named like the keys the description uses internally
+    "total: int = 0",
+    "last: int",
+    "seen: list = [{p0}]",
+    "return_type = {p1} * 2",
+    "params = dict(doc={p0})",
+    "del total",
+    "assert {p1} is not None, 'message'",
+    "global CACHE",
 ]
 SHADOWING = [
     "def inner({p1}):\n    return {p1} + 1",
